@@ -5,6 +5,7 @@
     [tpass] / [tloop] compute, provided each (member, encoding) pair that is
     tried behaves as the abstract outcome [tr] says: the member decodes the
     encoding to a value, or reports TAG_MISMATCH. *)
+From Coq Require Import Permutation.
 From Asn1V Require Import Base.Prelude Syntax.Asn1 Ber.Header Ber.BerCommon Ber.X690 Ber.BerScope
      Ber.BerLeafA Ber.BerAcceptBase.
 
@@ -87,6 +88,19 @@ Proof.
     + destruct (tpass ms (x :: xr)) as [[[[a b] c] d]|] eqn:E; [|discriminate]. injection H as <- <- <- <-.
       apply incl_cons; [left; reflexivity|]. apply incl_tl. exact (IH _ _ _ _ _ E).
     + discriminate.
+Qed.
+
+Lemma tloop_suffix n : forall ms xs vals xs' vals' un,
+  tloop n ms xs vals = Some (xs', vals', un) -> exists done, xs = done ++ xs'.
+Proof.
+  induction n as [|n IH]; intros ms xs vals xs' vals' un H; [discriminate|].
+  cbn [tloop] in H. destruct (tpass ms xs) as [[[[xs1 vs] un1] s]|] eqn:Ep; [|discriminate].
+  destruct (tpass_suffix _ _ _ _ _ _ Ep) as (d1 & ->).
+  destruct xs1 as [|x1 xs1].
+  - injection H as <- <- <-. exists d1. reflexivity.
+  - destruct (negb s).
+    + injection H as <- <- <-. exists d1. reflexivity.
+    + destruct (IH _ _ _ _ _ _ H) as (d2 & Hd2). exists (d1 ++ d2). rewrite <- app_assoc, <- Hd2. reflexivity.
 Qed.
 
 (* ---------------------------------------------------------------- *)
@@ -334,6 +348,161 @@ Proof.
       * discriminate.
 Qed.
 
+(** decoded values and undecoded members are complementary subsequences *)
+Inductive Split : list (member_of ty) -> list (string * value) -> list (member_of ty) -> Prop :=
+| Split_nil : Split [] [] []
+| Split_val m v ms vs un : Split ms vs un -> Split (m :: ms) ((m_name m, v) :: vs) un
+| Split_un m ms vs un : Split ms vs un -> Split (m :: ms) vs (m :: un).
+
+Lemma Split_all_un ms : Split ms [] ms.
+Proof. induction ms; constructor; assumption. Qed.
+
+Lemma tpass_split tr ms xs xs' vs un s : tpass tr ms xs = Some (xs', vs, un, s) -> Split ms vs un.
+Proof.
+  revert xs xs' vs un s. induction ms as [|m ms IH]; intros xs xs' vs un s H; cbn [tpass] in H.
+  - injection H as <- <- <- <-. constructor.
+  - destruct xs as [|x xr]; [injection H as <- <- <- <-; apply Split_all_un|].
+    destruct (tr m x).
+    + destruct (tpass tr ms xr) as [[[[a b] c] d]|] eqn:E; [|discriminate]. injection H as <- <- <- <-.
+      constructor. eapply IH; exact E.
+    + destruct (tpass tr ms (x :: xr)) as [[[[a b] c] d]|] eqn:E; [|discriminate]. injection H as <- <- <- <-.
+      constructor. eapply IH; exact E.
+    + discriminate.
+Qed.
+
+Lemma Split_incl ms vs un : Split ms vs un -> incl (names_of vs) (map (@m_name ty) ms) /\ incl un ms.
+Proof.
+  induction 1 as [|m v ms vs un _ [I1 I2]|m ms vs un _ [I1 I2]]; cbn [names_of map fst].
+  - split; apply incl_refl.
+  - split; [apply incl_cons; [left; reflexivity | apply incl_tl; exact I1] | apply incl_tl; exact I2].
+  - split; [apply incl_tl; exact I1 | apply incl_cons; [left; reflexivity | apply incl_tl; exact I2]].
+Qed.
+
+Lemma defaults_of_incl un : incl (names_of (defaults_of un)) (map (@m_name ty) un).
+Proof.
+  induction un as [|m un IH]; cbn [defaults_of names_of map fst]; [apply incl_refl|].
+  destruct (m_opt m); [intros a [] | apply incl_tl; exact IH |].
+  cbn [names_of map fst]. apply incl_cons; [left; reflexivity | apply incl_tl; exact IH].
+Qed.
+
+Lemma defaults_of_nodup un : NoDup (map (@m_name ty) un) -> NoDup (names_of (defaults_of un)).
+Proof.
+  induction un as [|m un IH]; intros H; cbn [defaults_of names_of map fst]; [constructor|].
+  cbn [map] in H. inversion H as [|? ? Hm Hu]; subst.
+  destruct (m_opt m); [constructor | apply IH; exact Hu |].
+  cbn [names_of map fst]. constructor; [|apply IH; exact Hu].
+  intros Hin. apply Hm. apply (defaults_of_incl un). exact Hin.
+Qed.
+
+(** names of the decoded values, then of the undecoded members: no repetition *)
+Lemma Split_nodup ms vs un :
+  Split ms vs un -> NoDup (map (@m_name ty) ms) -> NoDup (names_of vs ++ map (@m_name ty) un).
+Proof.
+  induction 1 as [|m v ms vs un Hs IH|m ms vs un Hs IH]; intros Hnd; cbn [names_of map fst app].
+  - constructor.
+  - cbn [map] in Hnd. inversion Hnd as [|? ? Hm Hms]; subst. constructor; [|apply IH; exact Hms].
+    destruct (Split_incl _ _ _ Hs) as [I1 I2]. intros Hin. apply in_app_or in Hin. destruct Hin as [Hin|Hin].
+    + apply Hm. apply I1. exact Hin.
+    + apply Hm. apply in_map_iff in Hin. destruct Hin as (m' & E & Hm'). rewrite <- E. apply in_map. apply I2. exact Hm'.
+  - cbn [map] in Hnd. inversion Hnd as [|? ? Hm Hms]; subst.
+    eapply Permutation_NoDup; [apply Permutation_middle|].
+    constructor; [|apply IH; exact Hms].
+    destruct (Split_incl _ _ _ Hs) as [I1 I2]. intros Hin. apply in_app_or in Hin. destruct Hin as [Hin|Hin].
+    + apply Hm. apply I1. exact Hin.
+    + apply Hm. apply in_map_iff in Hin. destruct Hin as (m' & E & Hm'). rewrite <- E. apply in_map. apply I2. exact Hm'.
+Qed.
+
+(** lookup in association lists without repeated names does not depend on the order *)
+Lemma lookup_in_nodup {A} n (v : A) l : NoDup (names_of l) -> In (n, v) l -> lookup n l = Some v.
+Proof.
+  induction l as [|[k w] l IH]; intros Hnd Hin; [destruct Hin|].
+  cbn [names_of map fst] in Hnd. inversion Hnd as [|? ? Hk Hl]; subst. cbn [lookup].
+  destruct Hin as [E|Hin].
+  - injection E as -> ->. rewrite String.eqb_refl. reflexivity.
+  - destruct (String.eqb n k) eqn:E.
+    + apply String.eqb_eq in E. subst. exfalso. apply Hk. change k with (fst (k, v)). apply in_map. exact Hin.
+    + apply IH; assumption.
+Qed.
+
+Lemma lookup_some_in {A} n (v : A) l : lookup n l = Some v -> In (n, v) l.
+Proof.
+  induction l as [|[k w] l IH]; cbn [lookup]; [discriminate|].
+  destruct (String.eqb n k) eqn:E.
+  - intros H. injection H as ->. apply String.eqb_eq in E. subst. left. reflexivity.
+  - intros H. right. apply IH. exact H.
+Qed.
+
+Lemma lookup_perm {A} n (l l' : list (string * A)) :
+  NoDup (names_of l) -> Permutation l l' -> lookup n l = lookup n l'.
+Proof.
+  intros Hnd Hp.
+  assert (Hnd' : NoDup (names_of l')).
+  { eapply Permutation_NoDup; [|exact Hnd]. unfold names_of. apply Permutation_map. exact Hp. }
+  destruct (lookup n l) as [v|] eqn:E.
+  - symmetry. apply lookup_in_nodup; [exact Hnd'|]. eapply Permutation_in; [exact Hp|]. apply lookup_some_in. exact E.
+  - destruct (lookup n l') as [v|] eqn:E'; [|reflexivity].
+    apply lookup_some_in in E'. apply Permutation_sym in Hp.
+    pose proof (Permutation_in _ Hp E') as Hin. rewrite (lookup_in_nodup n v l Hnd Hin) in E. discriminate.
+Qed.
+
+Lemma tpass_inert tr un x xr :
+  (forall m, In m un -> tr m x = TryMis) -> tpass tr un (x :: xr) = Some (x :: xr, [], un, false).
+Proof.
+  induction un as [|m un IH]; intros H; cbn [tpass]; [reflexivity|].
+  rewrite (H m (or_introl eq_refl)). rewrite IH by (intros m' Hm'; apply H; right; exact Hm'). reflexivity.
+Qed.
+
+Lemma tpass_head_consumed tr ms x xr vs un s :
+  tpass tr ms (x :: xr) = Some ([], vs, un, s) -> exists m v, In m ms /\ tr m x = TryVal v.
+Proof.
+  revert vs un s. induction ms as [|m ms IH]; intros vs un s H; cbn [tpass] in H; [discriminate|].
+  destruct (tr m x) as [v| |] eqn:E; [exists m, v; split; [left; reflexivity|exact E] | | discriminate].
+  destruct (tpass tr ms (x :: xr)) as [[[[a b] c] d]|] eqn:Et; [|discriminate]. injection H as -> <- <- <-.
+  destruct (IH _ _ _ eq_refl) as (m' & v & Hin & Hv). exists m', v. split; [right; exact Hin | exact Hv].
+Qed.
+
+Lemma tpass_nil_ms tr xs : tpass tr [] xs = Some (xs, [], [], false).
+Proof. reflexivity. Qed.
+
+Lemma tpass_success_nonempty tr ms xs xs' vs un : tpass tr ms xs = Some (xs', vs, un, true) -> ms <> [].
+Proof. intros H E. subst. cbn in H. discriminate. Qed.
+
+Lemma nodup_app_iff {A} (a b : list A) :
+  NoDup (a ++ b) <-> NoDup a /\ NoDup b /\ (forall x, In x a -> ~ In x b).
+Proof.
+  induction a as [|x a IH]; cbn [app].
+  - split; [intros H; repeat split; [constructor | exact H | intros x []] | intros (_ & H & _); exact H].
+  - split.
+    + intros H. inversion H as [|? ? Hx Hab]; subst. apply IH in Hab. destruct Hab as (Ha & Hb & Hd).
+      repeat split.
+      * constructor; [|exact Ha]. intros Hin. apply Hx. apply in_or_app. left. exact Hin.
+      * exact Hb.
+      * intros y [<-|Hy] Hyb; [apply Hx; apply in_or_app; right; exact Hyb | exact (Hd y Hy Hyb)].
+    + intros (Ha & Hb & Hd). inversion Ha as [|? ? Hx Ha']; subst. constructor.
+      * intros Hin. apply in_app_or in Hin. destruct Hin as [Hin|Hin]; [exact (Hx Hin) | exact (Hd x (or_introl eq_refl) Hin)].
+      * apply IH. repeat split; [exact Ha' | exact Hb | intros y Hy; apply Hd; right; exact Hy].
+Qed.
+
+(** names of decoded values and of the defaults of the undecoded members: no repetition *)
+Lemma Split_defaults_nodup ms vs un :
+  Split ms vs un -> NoDup (map (@m_name ty) ms) -> NoDup (names_of (vs ++ defaults_of un)).
+Proof.
+  intros Hs Hnd. pose proof (Split_nodup _ _ _ Hs Hnd) as N.
+  apply nodup_app_iff in N. destruct N as (Nv & Nu & Nd).
+  unfold names_of. rewrite map_app. apply nodup_app_iff. repeat split.
+  - exact Nv.
+  - apply defaults_of_nodup. exact Nu.
+  - intros x Hx Hd. apply (Nd x Hx). apply (defaults_of_incl un). exact Hd.
+Qed.
+
+Lemma Split_defaults_incl ms vs un :
+  Split ms vs un -> incl (names_of (vs ++ defaults_of un)) (map (@m_name ty) ms).
+Proof.
+  intros Hs. destruct (Split_incl _ _ _ Hs) as [I1 I2]. unfold names_of. rewrite map_app.
+  apply incl_app; [exact I1|]. intros x Hx. apply (defaults_of_incl un) in Hx.
+  apply in_map_iff in Hx. destruct Hx as (m & <- & Hm). apply in_map. apply I2. exact Hm.
+Qed.
+
 Section Sequence.
 Variable numeric : bool.
 Variable e : env.
@@ -364,6 +533,7 @@ Definition allowed (stopped : bool) (un : list (member_of ty)) : list (string * 
 
 Lemma read_sequence_tpass : forall ms in_root stopped xs fields,
   absentable_ok in_root ms ->
+  (stopped = true -> in_root = 0%nat) ->
   NoDup (map (@m_name ty) ms) ->
   read_sequence e f (bread numeric e f) in_root stopped ms xs = Some fields ->
   exists vs un s,
@@ -372,68 +542,216 @@ Lemma read_sequence_tpass : forall ms in_root stopped xs fields,
     incl (names_of fields) (map (@m_name ty) ms) /\
     canon_fields ms fields = fields.
 Proof.
-  induction ms as [|m ms IH]; intros in_root stopped xs fields Hab Hnd Hr; cbn [read_sequence] in Hr.
+  induction ms as [|m ms IH]; intros in_root stopped xs fields Hab Hst Hnd Hr; cbn [read_sequence] in Hr.
   - destruct xs; [|discriminate]. injection Hr as <-. exists [], [], false. repeat split.
     + intros n. destruct stopped; reflexivity.
     + apply incl_refl.
   - cbn [map] in Hnd. inversion Hnd as [|? ? Hm Hnd']; subst.
     pose proof (absentable_ok_tail _ _ _ Hab) as Hab'.
+    assert (Hff : false = true -> Init.Nat.pred in_root = 0%nat) by (intros; discriminate).
     assert (Hcanon_skip : forall flds, incl (names_of flds) (map (@m_name ty) ms) ->
                                        canon_fields (m :: ms) flds = canon_fields ms flds).
     { intros flds Hi. cbn [canon_fields]. rewrite lookup_none; [reflexivity|]. intros Hin. apply Hm. apply Hi. exact Hin. }
+    assert (Hcanon_cons : forall v flds, incl (names_of flds) (map (@m_name ty) ms) -> canon_fields ms flds = flds ->
+                                         canon_fields (m :: ms) ((m_name m, v) :: flds) = (m_name m, v) :: flds).
+    { intros v flds Hi Hc. cbn [canon_fields lookup]. rewrite String.eqb_refl. f_equal.
+      rewrite <- Hc at 2. apply canon_fields_ext. intros m' Hm'. cbn [lookup].
+      destruct (String.eqb (m_name m') (m_name m)) eqn:E; [|reflexivity].
+      apply String.eqb_eq in E. exfalso. apply Hm. rewrite <- E. apply in_map. exact Hm'. }
+    (* the absent case, shared by "no encoding left" and "the encoding belongs to a later component" *)
+    assert (Habsent : forall xs0,
+               (tpass tr_of (m :: ms) xs0 =
+                match tpass tr_of ms xs0 with Some (xs', vs, un, s) => Some (xs', vs, m :: un, s) | None => None end) ->
+               match absent_value (0 <? in_root)%nat stopped m with
+               | AbsentError => None
+               | AbsentStop => read_sequence e f (bread numeric e f) (pred in_root) true ms xs0
+               | AbsentFields a =>
+                 match read_sequence e f (bread numeric e f) (pred in_root) false ms xs0 with
+                 | Some more => Some (a ++ more)
+                 | None => None
+                 end
+               end = Some fields ->
+               exists vs un s,
+                 tpass tr_of (m :: ms) xs0 = Some ([], vs, un, s) /\
+                 (forall n, lookup n fields = match lookup n vs with Some v => Some v | None => lookup n (allowed stopped un) end) /\
+                 incl (names_of fields) (map (@m_name ty) (m :: ms)) /\
+                 canon_fields (m :: ms) fields = fields).
+    { intros xs0 Htp Hr0. rewrite Htp. unfold absent_value in Hr0.
+      destruct stopped.
+      - (* already stopped *)
+        assert (in_root = 0%nat) by (apply Hst; reflexivity). subst in_root.
+        destruct (IH _ _ _ _ Hab' (fun _ => eq_refl) Hnd' Hr0) as (vs & un & s & Ht & Hl & Hi & Hc).
+        rewrite Ht. exists vs, (m :: un), s. split; [reflexivity|]. split; [exact Hl|].
+        split; [apply incl_tl; exact Hi|]. rewrite Hcanon_skip by exact Hi. exact Hc.
+      - destruct (m_opt m) as [| |d] eqn:Eo.
+        + (* Mandatory *)
+          destruct (0 <? in_root)%nat eqn:E0; [discriminate|].
+          assert (in_root = 0%nat) by lia. subst in_root.
+          destruct (IH _ _ _ _ Hab' (fun _ => eq_refl) Hnd' Hr0) as (vs & un & s & Ht & Hl & Hi & Hc).
+          rewrite Ht. exists vs, (m :: un), s. split; [reflexivity|]. split; [|split].
+          * intros n. rewrite Hl. unfold allowed. cbn [defaults_of]. rewrite Eo. reflexivity.
+          * apply incl_tl. exact Hi.
+          * rewrite Hcanon_skip by exact Hi. exact Hc.
+        + (* Optional *)
+          destruct (read_sequence e f _ (pred in_root) false ms xs0) as [more|] eqn:Em; [|discriminate].
+          injection Hr0 as <-. cbn [app].
+          destruct (IH _ _ _ _ Hab' Hff Hnd' Em) as (vs & un & s & Ht & Hl & Hi & Hc).
+          rewrite Ht. exists vs, (m :: un), s. split; [reflexivity|]. split; [|split].
+          * intros n. rewrite Hl. unfold allowed. cbn [defaults_of]. rewrite Eo. reflexivity.
+          * apply incl_tl. exact Hi.
+          * rewrite Hcanon_skip by exact Hi. exact Hc.
+        + (* Default *)
+          destruct (read_sequence e f _ (pred in_root) false ms xs0) as [more|] eqn:Em; [|discriminate].
+          injection Hr0 as <-. cbn [app].
+          destruct (IH _ _ _ _ Hab' Hff Hnd' Em) as (vs & un & s & Ht & Hl & Hi & Hc).
+          rewrite Ht. exists vs, (m :: un), s. split; [reflexivity|]. split; [|split].
+          * intros n. cbn [lookup]. unfold allowed. cbn [defaults_of]. rewrite Eo. cbn [lookup].
+            destruct (String.eqb n (m_name m)) eqn:En.
+            -- apply String.eqb_eq in En. subst n.
+               rewrite (lookup_none (m_name m) vs); [reflexivity|].
+               intros Hin. apply Hm. destruct (tpass_names _ _ _ _ _ _ _ Ht) as (Hv & _ & _). apply Hv. exact Hin.
+            -- rewrite Hl. reflexivity.
+          * cbn [names_of map fst]. apply incl_cons; [left; reflexivity | apply incl_tl; exact Hi].
+          * apply Hcanon_cons; assumption. }
     destruct xs as [|x xr].
-    + (* no encoding left: absent *)
-      cbn [tpass].
-      destruct (absent_value (0 <? in_root)%nat stopped m) as [| |a] eqn:Ea; [discriminate| |].
-      * destruct (IH _ _ _ _ Hab' Hnd' Hr) as (vs & un & s & Ht & Hl & Hi & Hc).
-        assert (Hvs : tpass tr_of ms [] = Some ([], [], ms, false)) by (destruct ms; reflexivity).
-        rewrite Hvs in Ht. injection Ht as <- <- <-.
-        exists [], (m :: ms), false. split; [reflexivity|]. split; [|split].
-        -- intros n. rewrite Hl. cbn [lookup]. unfold allowed in *. unfold absent_value in Ea.
-           destruct stopped; [reflexivity|]. cbn [defaults_of]. destruct (m_opt m); try discriminate.
-           destruct (0 <? in_root)%nat; [discriminate|]. reflexivity.
-        -- apply incl_tl. exact Hi.
-        -- rewrite Hcanon_skip by exact Hi. exact Hc.
-      * destruct (read_sequence e f _ (pred in_root) false ms []) as [more|] eqn:Em; [|discriminate].
-        injection Hr as <-.
-        destruct (IH _ _ _ _ Hab' Hnd' Em) as (vs & un & s & Ht & Hl & Hi & Hc).
-        assert (Hvs : tpass tr_of ms [] = Some ([], [], ms, false)) by (destruct ms; reflexivity).
-        rewrite Hvs in Ht. injection Ht as <- <- <-.
-        exists [], (m :: ms), false. split; [reflexivity|].
-        unfold absent_value in Ea. destruct stopped; [discriminate|].
-        unfold allowed in *. cbn [defaults_of lookup] in *.
-        destruct (m_opt m) as [| |d]; [destruct (0 <? in_root)%nat; discriminate | |]; injection Ea as <-; cbn [app].
-        -- split; [exact Hl|]. split; [apply incl_tl; exact Hi|]. rewrite Hcanon_skip by exact Hi. exact Hc.
-        -- split; [|split].
-           ++ intros n. cbn [lookup]. destruct (String.eqb n (m_name m)); [reflexivity|]. apply Hl.
-           ++ cbn [names_of map fst]. apply incl_cons; [left; reflexivity | apply incl_tl; exact Hi].
-           ++ cbn [canon_fields lookup]. rewrite String.eqb_refl. f_equal.
-              rewrite <- Hc at 2. apply canon_fields_ext. intros m' Hm'. cbn [lookup].
-              destruct (String.eqb (m_name m') (m_name m)) eqn:E; [|reflexivity].
-              apply String.eqb_eq in E. exfalso. apply Hm. rewrite <- E. apply in_map. exact Hm'.
-    + (* an encoding is there *)
-      cbn [tpass]. unfold tr_of at 1.
-      destruct (has_tag e f (m_ty m) x) eqn:Eh.
+    + apply Habsent; [|exact Hr]. cbn [tpass].
+      assert (Hvs : tpass tr_of ms [] = Some ([], [], ms, false)) by (destruct ms; reflexivity).
+      rewrite Hvs. reflexivity.
+    + destruct (has_tag e f (m_ty m) x) eqn:Eh.
       * destruct stopped; [discriminate|].
         destruct (bread numeric e f (m_ty m) x) as [v|] eqn:Ev; [|discriminate].
         destruct (read_sequence e f _ (pred in_root) false ms xr) as [more|] eqn:Em; [|discriminate].
         injection Hr as <-.
-        destruct (IH _ _ _ _ Hab' Hnd' Em) as (vs & un & s & Ht & Hl & Hi & Hc).
-        rewrite Ht. exists ((m_name m, v) :: vs), un, true. split; [reflexivity|]. split; [|split].
+        destruct (IH _ _ _ _ Hab' Hff Hnd' Em) as (vs & un & s & Ht & Hl & Hi & Hc).
+        cbn [tpass]. unfold tr_of at 1. rewrite Eh, Ev, Ht.
+        exists ((m_name m, v) :: vs), un, true. split; [reflexivity|]. split; [|split].
         -- intros n. cbn [lookup]. destruct (String.eqb n (m_name m)); [reflexivity|]. apply Hl.
         -- cbn [names_of map fst]. apply incl_cons; [left; reflexivity | apply incl_tl; exact Hi].
-        -- cbn [canon_fields lookup]. rewrite String.eqb_refl. f_equal.
-           rewrite <- Hc at 2. apply canon_fields_ext. intros m' Hm'. cbn [lookup].
-           destruct (String.eqb (m_name m') (m_name m)) eqn:E; [|reflexivity].
-           apply String.eqb_eq in E. exfalso. apply Hm. rewrite <- E. apply in_map. exact Hm'.
-      * (* absent, the encoding belongs to a later component *)
-        assert (Hng : absent_value (0 <? in_root)%nat stopped m <> AbsentError -> greedy_choice e f (m_ty m) = false).
-        { intros Hne. apply (Hab 0%nat m eq_refl). unfold absent_value in Hne.
+        -- apply Hcanon_cons; assumption.
+      * apply Habsent; [|exact Hr].
+        cbn [tpass]. unfold tr_of at 1. rewrite Eh.
+        assert (Hng : greedy_choice e f (m_ty m) = false).
+        { apply (Hab 0%nat m eq_refl). unfold absent_value in Hr.
           destruct (m_opt m); try exact I. destruct stopped.
-          - (* stopped: the spec continues, the implementation tries the member anyway *)
-            destruct (in_root) eqn:Ei; [lia|]. exfalso. admit.
-          - destruct (0 <? in_root)%nat eqn:E0; [exfalso; apply Hne; reflexivity | lia]. }
-        admit.
-Admitted.
+          - rewrite (Hst eq_refl). lia.
+          - destruct (0 <? in_root)%nat eqn:E0; [discriminate|lia]. }
+        rewrite Hng. reflexivity.
+Qed.
+
+(** the root part of a successful reading: no mandatory component is skipped,
+    and the additions are read from the encodings the root pass leaves *)
+Lemma read_sequence_prefix : forall a b in_root xs fields xs1 vs1 un1 s1,
+  (length a <= in_root)%nat ->
+  read_sequence e f (bread numeric e f) in_root false (a ++ b) xs = Some fields ->
+  tpass tr_of a xs = Some (xs1, vs1, un1, s1) ->
+  no_mandatory un1 = true /\
+  exists fields2, read_sequence e f (bread numeric e f) (in_root - length a) false b xs1 = Some fields2.
+Proof.
+  induction a as [|m a IH]; intros b in_root xs fields xs1 vs1 un1 s1 Hlen Hr Ht; cbn [app read_sequence tpass length] in *.
+  - injection Ht as <- <- <- <-. split; [reflexivity|]. rewrite Nat.sub_0_r. eexists; exact Hr.
+  - assert (Hroot : (0 <? in_root)%nat = true) by (apply Nat.ltb_lt; lia).
+    assert (Hsub : (in_root - S (length a) = pred in_root - length a)%nat) by lia.
+    destruct xs as [|x xr].
+    + injection Ht as <- <- <- <-.
+      unfold absent_value in Hr. rewrite Hroot in Hr.
+      assert (Hvs : tpass tr_of a [] = Some ([], [], a, false)) by (destruct a; reflexivity).
+      destruct (m_opt m) eqn:Eo; [discriminate| |];
+        (destruct (read_sequence e f _ (pred in_root) false (a ++ b) []) as [more|] eqn:Em; [|discriminate];
+         destruct (IH b (pred in_root) [] more [] [] a false ltac:(lia) Em Hvs) as (Hn & fl & Hfl);
+         split; [cbn [no_mandatory forallb]; rewrite Eo; exact Hn | rewrite Hsub; eexists; exact Hfl]).
+    + unfold tr_of at 1 in Ht. destruct (has_tag e f (m_ty m) x) eqn:Eh.
+      * destruct (bread numeric e f (m_ty m) x) as [v|] eqn:Ev; [|discriminate].
+        destruct (read_sequence e f _ (pred in_root) false (a ++ b) xr) as [more|] eqn:Em; [|discriminate].
+        destruct (tpass tr_of a xr) as [[[[x1 v1] u1] s0]|] eqn:Et; [|discriminate]. injection Ht as <- <- <- <-.
+        destruct (IH b (pred in_root) xr more x1 v1 u1 s0 ltac:(lia) Em Et) as (Hn & fl & Hfl).
+        split; [exact Hn | rewrite Hsub; eexists; exact Hfl].
+      * unfold absent_value in Hr. rewrite Hroot in Hr.
+        destruct (greedy_choice e f (m_ty m)); [discriminate|].
+        destruct (tpass tr_of a (x :: xr)) as [[[[x1 v1] u1] s0]|] eqn:Et; [|discriminate]. injection Ht as <- <- <- <-.
+        destruct (m_opt m) eqn:Eo; [discriminate| |];
+          (destruct (read_sequence e f _ (pred in_root) false (a ++ b) (x :: xr)) as [more|] eqn:Em; [|discriminate];
+           destruct (IH b (pred in_root) (x :: xr) more x1 v1 u1 s0 ltac:(lia) Em Et) as (Hn & fl & Hfl);
+           split; [cbn [no_mandatory forallb]; rewrite Eo; exact Hn | rewrite Hsub; eexists; exact Hfl]).
+Qed.
+
+Lemma tr_of_val_has_tag m x v : tr_of m x = TryVal v -> has_tag e f (m_ty m) x = true.
+Proof. unfold tr_of. destruct (has_tag e f (m_ty m) x); [reflexivity|]. destruct (greedy_choice e f (m_ty m)); discriminate. Qed.
+
+(** SEQUENCE: the two phases of the implementation (root members, then
+    additions) on the component encodings, and the fields they produce *)
+Lemma seq_two_phase root adds xs fields :
+  absentable_ok (length root) (root ++ adds) ->
+  NoDup (map (@m_name ty) (root ++ adds)) ->
+  (forall m a x, In m root -> m_opt m <> Mandatory -> In a adds ->
+                 has_tag e f (m_ty a) x = true -> has_tag e f (m_ty m) x = false) ->
+  read_sequence e f (bread numeric e f) (length root) false (root ++ adds) xs = Some fields ->
+  exists xs2 vals1 un1,
+    tloop tr_of (S (length root)) root xs [] = Some (xs2, vals1, un1) /\ no_mandatory un1 = true /\
+    (adds = [] -> xs2 = []) /\
+    exists vals2 un2,
+      tloop tr_of (S (length adds)) adds xs2 (rev (defaults_of un1) ++ vals1) = Some ([], vals2, un2) /\
+      canon_fields (root ++ adds) (rev (defaults_of un2) ++ vals2) = fields.
+Proof.
+  intros Hab Hnd Hdisj Hr.
+  assert (Hff : false = true -> length root = 0%nat) by (intros; discriminate).
+  destruct (read_sequence_tpass _ _ _ _ _ Hab Hff Hnd Hr) as (vs & un & s & Ht & Hl & Hi & Hc).
+  rewrite tpass_app in Ht.
+  destruct (tpass tr_of root xs) as [[[[xs2 vs1] un1] s1]|] eqn:E1; [|discriminate].
+  destruct (tpass tr_of adds xs2) as [[[[xs3 vs2] un2] s2]|] eqn:E2; [|discriminate].
+  injection Ht as -> <- <- <-.
+  destruct (read_sequence_prefix root adds (length root) xs fields xs2 vs1 un1 s1 (le_n _) Hr E1) as (Hnm & _).
+  pose proof (tpass_split _ _ _ _ _ _ _ E1) as Hsp1. pose proof (tpass_split _ _ _ _ _ _ _ E2) as Hsp2.
+  destruct (Split_incl _ _ _ Hsp1) as [Iv1 Iu1]. destruct (Split_incl _ _ _ Hsp2) as [Iv2 Iu2].
+  (* phase 1 *)
+  assert (Hloop1 : tloop tr_of (S (length root)) root xs [] = Some (xs2, rev vs1 ++ [], un1)).
+  { cbn [tloop]. rewrite E1. rewrite add_values_rev.
+    destruct xs2 as [|x2 xr2]; [reflexivity|].
+    destruct s1; cbn [negb]; [|reflexivity].
+    pose proof (tpass_success_nonempty _ _ _ _ _ _ E1) as Hne.
+    destruct root as [|r0 root']; [contradiction|]. cbn [length tloop].
+    (* the skipped root members do not take the first addition's encoding *)
+    destruct (tpass_head_consumed _ _ _ _ _ _ _ E2) as (a & va & Hina & Hva).
+    pose proof (tr_of_val_has_tag _ _ _ Hva) as Hta.
+    rewrite tpass_inert.
+    - cbn [negb]. rewrite add_values_rev. reflexivity.
+    - intros m Hm. unfold tr_of.
+      assert (Hmr : In m (r0 :: root')) by (apply Iu1; exact Hm).
+      assert (Hopt : m_opt m <> Mandatory).
+      { unfold no_mandatory in Hnm. rewrite forallb_forall in Hnm. specialize (Hnm m Hm).
+        destruct (m_opt m); [discriminate| |]; discriminate. }
+      rewrite (Hdisj m a x2 Hmr Hopt Hina Hta).
+      assert (Hg : greedy_choice e f (m_ty m) = false).
+      { destruct (In_nth_error _ _ Hmr) as (i & Hi').
+        apply (Hab i m).
+        - rewrite nth_error_app1; [exact Hi'|]. apply nth_error_Some. congruence.
+        - destruct (m_opt m); [contradiction| |]; exact I. }
+      rewrite Hg. reflexivity. }
+  exists xs2, (rev vs1 ++ []), un1. split; [exact Hloop1|]. split; [exact Hnm|]. split.
+  { intros ->. cbn in E2. injection E2 as -> _ _ _. reflexivity. }
+  exists (rev vs2 ++ rev (defaults_of un1) ++ rev vs1 ++ []), un2. split.
+  { cbn [tloop]. rewrite E2. rewrite add_values_rev. reflexivity. }
+  (* the fields *)
+  rewrite <- Hc. apply canon_fields_ext. intros m Hm.
+  rewrite Hl. unfold allowed. rewrite defaults_of_app by exact Hnm.
+  rewrite <- (lookup_app (m_name m) (vs1 ++ vs2) (defaults_of un1 ++ defaults_of un2)).
+  rewrite app_nil_r.
+  set (L0 := (vs1 ++ defaults_of un1) ++ (vs2 ++ defaults_of un2)).
+  assert (HND : NoDup (names_of L0)).
+  { rewrite map_app in Hnd. apply nodup_app_iff in Hnd. destruct Hnd as (Hnd1 & Hnd2 & Hd12).
+    unfold L0, names_of. rewrite map_app. apply nodup_app_iff. repeat split.
+    - apply (Split_defaults_nodup _ _ _ Hsp1 Hnd1).
+    - apply (Split_defaults_nodup _ _ _ Hsp2 Hnd2).
+    - intros x Hx1 Hx2. apply (Hd12 x).
+      + apply (Split_defaults_incl _ _ _ Hsp1). exact Hx1.
+      + apply (Split_defaults_incl _ _ _ Hsp2). exact Hx2. }
+  transitivity (lookup (m_name m) L0).
+  - symmetry. apply lookup_perm; [exact HND|].
+    replace (rev (defaults_of un2) ++ rev vs2 ++ rev (defaults_of un1) ++ rev vs1)
+      with (rev (vs1 ++ defaults_of un1 ++ vs2 ++ defaults_of un2))
+      by (rewrite !rev_app_distr, <- !app_assoc; reflexivity).
+    unfold L0. rewrite <- app_assoc. apply Permutation_rev.
+  - apply lookup_perm; [exact HND|].
+    unfold L0. rewrite <- !app_assoc. apply Permutation_app_head. apply Permutation_app_swap_app.
+Qed.
 
 End Sequence.
